@@ -508,6 +508,8 @@ class FixedWidthBinning(BinningBase):
     def _force_bin_existence_single(self, value, includes_right_edge=None):
         if includes_right_edge is None:
             includes_right_edge = self.includes_right_edge
+        # A numpy scalar of a narrower type (float32) would drag the arithmetic below into its precision
+        value = float(value)
 
         if self._bin_count == 0:
             times_min = int(np.floor((value - self._shift) / self.bin_width))
